@@ -1376,6 +1376,86 @@ def generate(ctx: Ctx, scale: int, rng, thorough=False):
                               "a": l1(ta).hex(), "b": l1(tcabs).hex()}
                         ctx.case(("genabs", ta), sample=None)
                         eval_case(ctx, c3)
+    # --- TTL defaulting: a line without a TTL field ($GENERATE and plain RR) in zones with ($TTL | SOA-minimum default |
+    # neither) x (an earlier explicit TTL that differs from the default | none).  Both line kinds take the default TTL
+    # when one is known and the last stated TTL otherwise; `Zone.__eq__` ignores TTLs, `zones_equal` here does not.
+    for ti in range(n(160)):
+        origin = rng.choice(ORIGINS[:3])
+        rel = rng.chance(1, 2)
+        dflt = ["ttl", "soa", "soa-nottl", "none"][ti % 4]
+        early = rng.choice([None, 86400, 86400, 7, 0, 1800])
+        d = rng.choice([3600, 300, 1, 0])
+        minimum = rng.choice([300, 60, 5, 0])
+        pre, default, last = [], None, None
+        if dflt == "ttl":
+            pre.append(rng.choice([f"$TTL {d}", f"$ttl {d}"]))
+            default = d
+        if dflt != "none":
+            soa_ttl = "" if (dflt == "soa-nottl" or (dflt == "ttl" and rng.chance(1, 2))) else "7200 "
+            pre.append(f"@ {soa_ttl}IN SOA ns1 hostmaster 1 2 3 4 {minimum}")
+            if soa_ttl:
+                last = 7200
+            if default is None:
+                default = minimum
+        if early is not None:
+            pre.append(rng.choice([f"@ {early} IN NS ns1", f"@ IN {early} NS ns1", f"@ {early} NS ns1"]))
+            last = early
+        elif default is not None:
+            pre.append("@ NS ns1")
+        if early is not None and rng.chance(1, 3):
+            e2 = rng.choice([early, 42])
+            pre.append(f"glue {e2} A 192.0.2.1")
+            last = e2
+        expected = default if default is not None else last        # the rule, written out independently
+        cls = rng.choice(["", "IN ", "in "])
+        gty, grhs = rng.choice([("A", "10.0.1.$"), ("CNAME", "t$"), ("TXT", "v$"), ("PTR", "p${0,2,d}.x")])
+        gl = f"$GENERATE {rng.choice(['1-3', '7-7', '2-6/2'])} host$ {cls}{gty} {grhs}"
+        plain = [f"w {cls}A 10.0.0.9", "  AAAA ::1"] if rng.chance(2, 3) else [f"w {cls}MX 10 mail"]
+        order = rng.below(3)
+
+        def assemble(gen_lines, plain_lines):
+            body = gen_lines + plain_lines if order == 0 else plain_lines + gen_lines if order == 1 else gen_lines
+            return "\n".join(pre + body) + "\n"
+        ta = assemble([gl], plain)
+        exp = expand_generate(gl, origin)
+        tb = assemble(exp, plain)
+        ctx.count(f"ttl-default.{dflt}.{'early' if early is not None else 'noearly'}")
+        c = {"kind": "read", "origin": hexl(origin), "rel": rel, "chk": False, "text": l1(ta).hex()}
+        ctx.case(("ttldef", ta, rel), sample=c)
+        eval_case(ctx, c)
+        if expected is None:
+            # no TTL anywhere: both spellings are refused alike ("Missing default TTL value")
+            eval_case(ctx, {"kind": "read", "origin": hexl(origin), "rel": rel, "chk": False, "text": l1(tb).hex()})
+            continue
+        c2 = {"kind": "spell", "what": "generate-vs-expansion", "origin": hexl(origin), "rel": rel, "a": l1(ta).hex(), "b": l1(tb).hex()}
+        ctx.case(("ttldef-exp", ta, rel), sample=c2)
+        eval_case(ctx, c2)
+        # inherited versus explicit TTL, both line kinds: every TTL-less line spelled with the expected TTL
+        def with_ttl(ln):
+            w = ln.split(" ")
+            if ln.startswith("$GENERATE"):
+                return " ".join(w[:3] + [str(expected)] + w[3:])
+            if ln.startswith("  "):
+                return f"  {expected} " + ln.strip()
+            return " ".join(w[:1] + [str(expected)] + w[1:])
+        tc = assemble([with_ttl(gl)], [with_ttl(x) for x in plain])
+        td = assemble([with_ttl(x) for x in exp], [with_ttl(x) for x in plain])
+        for what, t2 in (("ttl-inherited-vs-explicit/generate", tc), ("ttl-inherited-vs-explicit/lines", td)):
+            c3 = {"kind": "spell", "what": what, "origin": hexl(origin), "rel": rel, "a": l1(ta).hex(), "b": l1(t2).hex()}
+            ctx.case(("ttldef-x", what, ta, rel), sample=None)
+            eval_case(ctx, c3)
+        # and the TTLs themselves, read off the loaded zone (rdataset.ttl of every generated / plain owner)
+        la, za = impl_read(origin, rel, False, ta)
+        if za is not None:
+            for name, node in za.nodes.items():
+                for rds in node.rdatasets:
+                    lab0 = name.labels[0] if name.labels else b""
+                    if lab0.startswith(b"host") or lab0 == b"w":
+                        if rds.ttl != expected:
+                            ctx.fail("C09/read/ttl-defaulting/wrong-ttl",
+                                     f"{name} {dns.rdatatype.to_text(rds.rdtype)} loaded with TTL {rds.ttl}, expected {expected} "
+                                     f"(default {default}, last stated {last}) from {ta!r}", {"kind": "read", "case": c})
+
     # --- "$ORIGIN-relative versus absolute names" for the argument of $ORIGIN itself (RFC 1035 5.1: a relative
     # domain name in a master file, the $ORIGIN argument included, is completed with the current origin; repaired in
     # c444c98, witness corpus/C09/relative-origin-directive.json kept as regression case)
